@@ -1436,11 +1436,10 @@ func (w *world) sweep(rec *verifkit.Recorder, only func(call string) bool) {
 			rec.AddExtra("fault_runs", 1)
 			mid := w.sim.State()
 			w.checkSafety(ctx+" / aborted run", before, mid)
-			if err == nil {
-				// The error of call k was swallowed or the call was not reached.
-				if run.N > k {
-					w.fail("VIOLATION %s: the run reported success although API call %d failed", ctx, k)
-				}
+			if err == nil && run.N > k && (fk.Kind == verifsim.ErrBefore || fk.Kind == verifsim.CrashBefore) {
+				// (With the "after" kinds the call may legitimately report its own
+				// outcome, e.g. AlreadyExists for a default object, which is ignored.)
+				w.fail("VIOLATION %s: the run reported success although API call %d failed without effect", ctx, k)
 			}
 			if _, err := w.run(nil); err != nil {
 				w.fail("VIOLATION %s: the repeated fault-free run failed: %v", ctx, err)
